@@ -532,6 +532,13 @@ def call_builtin(it, b, args, kwargs, node):
             if base_type(v.pytype) == 'dict':
                 return SInt(c.hget(v, '$len'))
         raise Unsupported('len of %r' % (v,))
+    if n in ('max', 'min'):
+        if len(args) == 2 and all(isinstance(a, (int, SInt)) and not isinstance(a, bool) for a in args):
+            if all(isinstance(a, int) for a in args):
+                return max(args) if n == 'max' else min(args)
+            a, b = c.to_int(args[0]), c.to_int(args[1])
+            return SInt(z3.If(a >= b, a, b) if n == 'max' else z3.If(a <= b, a, b))
+        raise Unsupported('%s of %r' % (n, args))
     if n == 'id':
         return SInt(id_of(c.to_ref(args[0])))
     if n == 'next':
